@@ -35,10 +35,10 @@ const (
 )
 
 type Action struct {
-	Kind string          `json:"kind"`
-	Node int             `json:"node"`
-	Op   string          `json:"op,omitempty"`  // operation id
-	Note string          `json:"note,omitempty"`
+	Kind string           `json:"kind"`
+	Node int              `json:"node"`
+	Op   string           `json:"op,omitempty"` // operation id
+	Note string           `json:"note,omitempty"`
 	Msg  *storage.Message `json:"msg,omitempty"` // for Post
 }
 
